@@ -335,6 +335,7 @@ def run(ctx, out, tier):
     check_grammar(ctx, out, mods, rule="C03.grammar")
     from rules.C10 import check_tagpos
     check_tagpos(ctx, out, "C03.tagpos")
+    shared.sh_traverse(ctx, out)
     return meta()
 
 
